@@ -2,6 +2,7 @@
 // process of the crash and cluster drivers (zrdrive crashsim / clustersim).
 //
 //   stdin   control lines:  status | transfer <raftID> | crash <hook> <k> | hold <hook> <k> [<rel> <j>]
+//                           | pause | resume | stale on|off
 //                           | hits | stop
 //   fd 3    answers and hook reports, one line each:
 //             READY {status}   the namespace started (restore + WAL read done, raft loop running)
@@ -67,7 +68,7 @@ func main() {
 	keepWAL := flag.Int("keepwal", 2, "")
 	keepBackup := flag.Int("keepbackup", 2, "")
 	walSeg := flag.Int64("walseg", 0, "wal.SegmentSizeBytes (0 = default 64 MB)")
-	stale := flag.Bool("stale", true, "allow follower (stale) reads, used for dumps only")
+	stale := flag.Bool("stale", false, "allow follower (stale) reads from the start (the parent switches them on only for its dumps)")
 	optFsync := flag.Bool("optfsync", false, "namespace option optimized_fsync")
 	flag.Parse()
 
@@ -202,6 +203,15 @@ func main() {
 			}
 			node.VerifArmHold(f[1], k, rel, j)
 			say("ARMED hold %s %d", f[1], k)
+		case "pause": // partition nemesis: cut this node off from its raft peers
+			kv.VerifPauseRaft(true)
+			say("PAUSED")
+		case "resume":
+			kv.VerifPauseRaft(false)
+			say("RESUMED")
+		case "stale": // follower (stale) reads on / off: on only while the parent dumps every replica
+			server.VerifAllowStaleRead(len(f) > 1 && f[1] == "on")
+			say("STALE %v", len(f) > 1 && f[1] == "on")
 		case "hits":
 			h, _ := json.Marshal(node.VerifHits())
 			say("HITS %s", h)
